@@ -50,7 +50,8 @@ UFRead(uf, n) ==
   LET beyond == n + uf.g > uf.end
       n1 == IF beyond THEN uf.end - uf.g ELSE n
       r == ReadLoop(uf.data, uf.g, n1, 0)
-  IN [uf EXCEPT !.rd = IF beyond THEN "eof" ELSE "good", !.g = r.g, !.gc = r.gc, !.dem = 0]
+  IN [uf EXCEPT !.rd = IF beyond THEN "eof" ELSE @,       \* like an iostream: a failure persists (fix of F18)
+                !.g = r.g, !.gc = r.gc, !.dem = 0]
   \* notifies tellgChanged
 
 (* a read whose predicate is false publishes the position it needs before it waits
